@@ -36,6 +36,13 @@ impl OverlapChecker
         size: usize)
         -> Result<(), ()>
     {
+        // Zero-sized items occupy no bits: they can neither
+        // overlap anything nor hide a later overlap
+        if size == 0
+        {
+            return Ok(());
+        }
+
         let (index, maybe_overlapping_entry) =
             self.check_overlap(position, size);
         
